@@ -23,6 +23,8 @@ func vhWorld(name string) (*Network, State) {
 	s.Elements.NumLeaves = 4
 	vh.Assume(s.Index.Height >= 11)
 	vh.Assume(s.Index.Height < 1<<62)
+	// I2: the unclaimed siafund pool is part of the supply (< 2^120)
+	vh.Assume(s.SiafundTaxRevenue.Hi < 1<<56)
 	return n, s
 }
 
